@@ -75,6 +75,78 @@ func codec(c *hx.Ctx) {
 		refOp(c, ref)
 		c.Case(ref, true)
 	}
+	// column letters at the bound ColumnToIndex enforces (column number 2^40): the last
+	// indices converted, the first ones refused, from both sides; long letter strings
+	const bound = 1 << 40
+	for _, i := range []int{bound - 3, bound - 2, bound - 1, bound, bound + 1, bound + 25, bound + 26, 2*bound - 1, 26 * bound, 1<<62 - 1} {
+		s := xlsx.IndexToColumn(i)
+		c.Op(fmt.Sprintf("c17.idx2col %d", i), hx.HexS(s))
+		back := xlsx.ColumnToIndex(s)
+		c.Op("c17.col2idx "+hx.HexS(s), strconv.Itoa(back))
+		c.Op("c17.col2idx "+hx.HexS(strings.ToLower(s)), strconv.Itoa(xlsx.ColumnToIndex(strings.ToLower(s))))
+		if i+1 <= bound {
+			// within what the code converts the conversion is a bijection
+			c.Check("C17/col-bijection", back == i, map[string]int{"index": i}, func() string {
+				return fmt.Sprintf("ColumnToIndex(IndexToColumn(%d)=%q)=%d", i, s, back)
+			})
+			c.Count("col-at-bound:within")
+		} else {
+			c.Count("col-at-bound:beyond")
+		}
+		for _, row := range []int{0, 1048575} {
+			ref := xlsx.CellRef(i, row)
+			c.Op(fmt.Sprintf("c17.cellref %d %d", i, row), hx.HexS(ref))
+			refOp(c, ref)
+			c2, r2, err := xlsx.ParseCellRef(ref)
+			if i+1 <= bound {
+				c.Check("C17/cellref-bijection", err == nil && c2 == i && r2 == row, map[string]int{"col": i, "row": row}, func() string {
+					return fmt.Sprintf("ParseCellRef(CellRef(%d,%d)=%q)=(%d,%d,%v)", i, row, ref, c2, r2, err)
+				})
+			}
+			t := "A1:" + ref
+			sc, sr, ec, er, err := xlsx.ParseRangeRef(t)
+			out := "err"
+			if err == nil {
+				out = fmt.Sprintf("ok %d %d %d %d", sc, sr, ec, er)
+			}
+			c.Op("c17.range "+hx.HexS(t), out)
+		}
+		c.Case("bound"+strconv.Itoa(i), i+1 <= bound)
+	}
+	for i := 0; i < c.N(200, 3000); i++ {
+		n := c.Rng.Range(7, 12)
+		if c.Rng.Chance(1, 4) {
+			n = c.Rng.Range(13, 80)
+		}
+		var sb strings.Builder
+		for j := 0; j < n; j++ {
+			ch := byte('A' + c.Rng.Intn(26))
+			if j == 0 && n == 9 && c.Rng.Bool() {
+				ch = byte('A' + c.Rng.Intn(6)) // nine letters: the bound lies between CRPXNLSKVLJFHG... spellings starting A..E and the rest
+			}
+			if c.Rng.Chance(1, 6) {
+				ch += 'a' - 'A'
+			}
+			sb.WriteByte(ch)
+		}
+		s := sb.String()
+		idx := xlsx.ColumnToIndex(s)
+		c.Op("c17.col2idx "+hx.HexS(s), strconv.Itoa(idx))
+		refOp(c, s+"7")
+		if idx >= 0 {
+			c.Count(fmt.Sprintf("col-letters:%d-accepted", n))
+			// what the code converts it converts back (case apart)
+			back := xlsx.IndexToColumn(idx)
+			c.Check("C17/col-bijection-string", back == strings.ToUpper(s), map[string]string{"letters": s}, func() string {
+				return fmt.Sprintf("IndexToColumn(ColumnToIndex(%q)=%d)=%q", s, idx, back)
+			})
+		} else if n <= 12 {
+			c.Count(fmt.Sprintf("col-letters:%d-refused", n))
+		} else {
+			c.Count("col-letters:13+-refused")
+		}
+		c.Case("L"+s, idx >= 0)
+	}
 	alphabet := []string{"A", "Z", "a", "z", "AA", "0", "1", "9", "10", "+", "-", "$", ":", " ", "@", "[", "`", "{", "_", "00", "9223372036854775807", "9223372036854775808"}
 	for i := 0; i < c.N(1500, 20000); i++ {
 		n := c.Rng.Range(0, 4)
@@ -519,6 +591,14 @@ func RunWorkbook(c *hx.Ctx, idx int, keep bool) {
 	doc, _, derr := ext.Document()
 	c.Check("C17/document-open", derr == nil, kase, func() string { return fmt.Sprint(derr) })
 	nontrivial := false
+	tables := rd.Tables()
+	apiText, _, aterr := tabula.Open(path).Text()
+	c.Check("C17/api-text-error", aterr == nil, kase, func() string { return fmt.Sprint(aterr) })
+	apiLines := strings.Split(apiText, "\n")
+	apiOffset := 0 // line of the current sheet's first row in the text of the whole workbook
+	apiMd, _, amerr := tabula.Open(path).ToMarkdown()
+	c.Check("C17/api-markdown-error", amerr == nil, kase, func() string { return fmt.Sprint(amerr) })
+	apiSections := mdSections(apiMd)
 	for si, sh := range sheets {
 		s, _ := rd.Sheet(si)
 		text, _ := rd.TextWithOptions(xlsx.ExtractOptions{Sheets: []int{si}})
@@ -624,6 +704,23 @@ func RunWorkbook(c *hx.Ctx, idx int, keep bool) {
 						return fmt.Sprintf("line %d field %d = %q want %q", rr, cc, f, want)
 					})
 				}
+				if cell != nil {
+					c.Check("C17/cell-coordinates", cell.Row == rr && cell.Col == cc, pos, func() string {
+						return fmt.Sprintf("Cell(%d,%d) says Row=%d Col=%d", rr, cc, cell.Row, cell.Col)
+					})
+				}
+				if noCtl {
+					// Extractor.Text(): all sheets, a blank line between them
+					f := "<missing>"
+					if apiOffset+rr < len(apiLines) {
+						if fs := strings.Split(apiLines[apiOffset+rr], "\t"); cc < len(fs) {
+							f = fs[cc]
+						}
+					}
+					c.Check("C17/api-text-line-field", f == want, pos, func() string {
+						return fmt.Sprintf("Text() line %d+%d field %d = %q want %q", apiOffset, rr, cc, f, want)
+					})
+				}
 				if tbl != nil && rr >= minR && rr <= bmaxR && cc >= minC && cc <= bmaxC {
 					tr, tc := rr-minR, cc-minC
 					g := "<oob>"
@@ -640,6 +737,42 @@ func RunWorkbook(c *hx.Ctx, idx int, keep bool) {
 			c.Check("C17/model-table-present", tbl != nil && len(tbl.Rows) == bmaxR-minR+1, kase, func() string {
 				return fmt.Sprintf("sheet %d: table %v", si, tbl != nil)
 			})
+			// Tables(): header row first, then the data rows
+			var ptab [][]string
+			if si < len(tables) {
+				ptab = append([][]string{tables[si].Headers}, tables[si].Rows...)
+			}
+			c.Check("C17/tables-shape", len(ptab) == bmaxR-minR+1 && si < len(tables) && tables[si].Name == sh.name, kase, func() string {
+				return fmt.Sprintf("sheet %d: Tables() has %d rows, want %d", si, len(ptab), bmaxR-minR+1)
+			})
+			var apiRows [][]string
+			if sec, ok := apiSections[sh.name]; ok {
+				apiRows = mdTable(sec)
+			}
+			for rr := minR; rr <= bmaxR; rr++ {
+				for cc := minC; cc <= bmaxC; cc++ {
+					want := sh.cells[[2]int{rr, cc}].value
+					pos := map[string]interface{}{"seed": c.Seed, "index": idx, "sheet": si, "row": rr, "col": cc}
+					got := "<oob>"
+					if rr-minR < len(ptab) && cc-minC < len(ptab[rr-minR]) {
+						got = ptab[rr-minR][cc-minC]
+					}
+					key := "C17/tables-cell"
+					if _, isStale := sh.stale[[2]int{rr, cc}]; isStale {
+						key = "C17/tables-covered-cell"
+					}
+					c.Check(key, got == want, pos, func() string {
+						return fmt.Sprintf("Tables()[%d] cell (%d,%d)=%q want %q", si, rr-minR, cc-minC, got, want)
+					})
+					agot := "<oob>"
+					if rr-minR < len(apiRows) && cc-minC < len(apiRows[rr-minR]) {
+						agot = apiRows[rr-minR][cc-minC]
+					}
+					c.Check("C17/api-markdown-cell", agot == strings.TrimSpace(strings.ReplaceAll(want, "\n", " ")), pos, func() string {
+						return fmt.Sprintf("ToMarkdown() sheet %q cell (%d,%d)=%q want %q", sh.name, rr-minR, cc-minC, agot, want)
+					})
+				}
+			}
 			md, _ := rd.MarkdownWithOptions(xlsx.ExtractOptions{Sheets: []int{si}})
 			rows := mdTable(md)
 			for rr := minR; rr <= bmaxR; rr++ {
@@ -659,6 +792,12 @@ func RunWorkbook(c *hx.Ctx, idx int, keep bool) {
 					})
 				}
 			}
+		}
+		// the sheet takes one line per grid row (one empty line for an empty grid), then a blank line
+		if maxR+1 > 0 {
+			apiOffset += maxR + 1 + 1
+		} else {
+			apiOffset += 1 + 1
 		}
 	}
 	c.Count(fmt.Sprintf("sheets=%d", nsheets))
@@ -707,20 +846,57 @@ func mdTable(md string) [][]string {
 	return rows
 }
 
+// mdSections cuts the Markdown of a whole workbook at its level-2 headings
+// ("## name") and returns the text under each sheet name.
+func mdSections(md string) map[string]string {
+	out := map[string]string{}
+	name, has := "", false
+	var cur []string
+	flush := func() {
+		if has {
+			out[name] = strings.Join(cur, "\n")
+		}
+	}
+	for _, line := range strings.Split(md, "\n") {
+		if strings.HasPrefix(line, "## ") {
+			flush()
+			name, has, cur = strings.TrimPrefix(line, "## "), true, nil
+			continue
+		}
+		cur = append(cur, line)
+	}
+	flush()
+	return out
+}
+
 func init() { hx.Register("C17", Run, Replay) }
 
 func Run(c *hx.Ctx) {
-	c.Rep.Rule = "codec: every index in a bounded range + random big indices + malformed refs; workbooks: random logical sheets (sparse cells, 8 stored kinds incl. white-space-only values, each of them either typed in or the cached result of a formula (<f> beside any t: boolean, error, number, shared/rich/inline/str string, or nothing cached), merges whose covered cells are absent or still store a value, in a third of the sheets content moved off A1 plus 1-2 slight-valued cells - white space, 0, FALSE, one character - strictly outside the box of all other valued cells; shuffled rows/cells/members) rendered by the harness's XLSX writer; non-trivial = at least one non-empty cell; distinct by canonical workbook"
+	c.Rep.Rule = "codec: every index in a bounded range + random big indices + the indices around the bound of ColumnToIndex (column number 2^40, from both sides) + random letter strings of 7..80 letters + malformed refs; workbooks: random logical sheets (sparse cells, 8 stored kinds incl. white-space-only values, each of them either typed in or the cached result of a formula (<f> beside any t: boolean, error, number, shared/rich/inline/str string, or nothing cached), merges whose covered cells are absent or still store a value, in a third of the sheets content moved off A1 plus 1-2 slight-valued cells - white space, 0, FALSE, one character - strictly outside the box of all other valued cells; shuffled rows/cells/members) rendered by the harness's XLSX writer; api stream (workbook-level ops and call histories): the same logical workbooks, half of them with 1-3 authored faults (duplicate refs/rows, bad shared indices, odd or malformed merge ranges, rows <= 0, unparsable refs, missing parts, Markdown-special values, odd sheet names, refs naming another row), and raw sheets drawn from pools of good and bad references, types, values and merge ranges with <si> holding text, runs, both or neither and an occasional sheet too large to load; random ExtractOptions / MarkdownOptions / call sequences; budget stream: small sheets whose merged regions tile the grid exactly (valid), exceed it by one cell, repeat the whole grid, overlap, reach beyond the grid or come before/after the region that ends the merge loop, with the merge-flag and text oracles on the sheets whose regions do not overlap; cap stream: workbooks whose sheets' grids reach the limit of 8 Mi cells exactly, by one cell too many, or far beyond (incl. a sheet too large on its own and an empty sheet after the limit), c17.open only; non-trivial = at least one non-empty cell (api: a sheet with a non-empty content box); distinct by canonical workbook"
 	codec(c)
 	n := c.N(250, 4000)
 	for i := 0; i < n; i++ {
 		RunWorkbook(c, i, false)
 	}
+	apiStream(c)
+	budgetStream(c)
 }
 
 // Replay re-runs one recorded failing case on the implementation.
 func Replay(c *hx.Ctx, kase map[string]interface{}) {
 	if idx, ok := kase["index"].(float64); ok {
+		if b, _ := kase["budget"].(bool); b {
+			RunBudget(c, int(idx), true)
+			return
+		}
+		if b, _ := kase["cap"].(bool); b {
+			RunCap(c, int(idx), true)
+			return
+		}
+		if api, _ := kase["api"].(bool); api {
+			RunAPI(c, int(idx), true)
+			return
+		}
 		if _, isCol := kase["col"]; isCol && kase["sheet"] == nil && kase["seed"] == nil {
 			codec(c)
 			return
